@@ -58,6 +58,11 @@ struct PerType {
         DomainOf<S, DomList1<S> > d = erase<S>(DomList1<S>(vals, B <= 16 ? "every value" : (B == 32 ? "L32" : "L64")));
         Shifts<V, 0, B + 1>::run(d, K);
         Rots<V, 0, B + 2>::run(d, K);
+        // amounts above the bit width whose remainder has its upper bits set (a wrong modulus such as S % 32 for 64-bit lanes: seed C04-c)
+        explore<V, rlc<2 * B - 1> >(d, &K);
+        explore<V, rrc<2 * B - 1> >(d, &K);
+        explore<V, rlc<B + B / 2 + 1> >(d, &K);
+        explore<V, rrc<B + B / 2 + 1> >(d, &K);
         explore<V, rlc<2 * B + 3> >(d, &K);
         explore<V, rrc<2 * B + 3> >(d, &K);
         explore<V, rlc<255 * B + 5> >(d, &K);
